@@ -723,8 +723,8 @@ Example west_gap_example :
   /\ fields_of monrovia (63593070 * giga) = Fields 1972 1 7 0 44 30 0.
 Proof. repeat split; vm_compute; reflexivity. Qed.
 
-(* a locale whose pm marker is not "pm" (Arabic) *)
-Definition ara_env : env := Env DMY HMAP [1589]%N [1605]%N 2026.
+(* a locale whose markers are not am/pm: Spanish "a. m." / "p. m." (with U+202F), the input of the known finding *)
+Definition ara_env : env := Env DMY HMAP [97; 46; 8239; 109; 46]%N [112; 46; 8239; 109; 46]%N 2026.
 Lemma localized_witness :
   fields_of (fun _ => 0) (1588784889 * giga) = Fields 2020 5 6 17 8 9 0
   /\ exists t', datetime_from_string (fun _ => 0) (fun _ => None) ara_env (format_datetime (fun _ => 0) ara_env (1588784889 * giga)) = Some t'
@@ -738,7 +738,9 @@ Example roundtrip_hyps_sat :
   let e := Env MDY HMSAP [97; 109]%N [112; 109]%N 2026 in
   let f := fields_of offset t in
   std_markers e /\ in_year_range (f_year f) /\ -86400 < offset (unix_of t) < 86400 /\ offset (unix_of t) mod 60 = 0
-  /\ resolves offset (wall_of (f_year f) (f_month f) (f_day f) (f_hour f) (f_min f) (secs_of (e_tf e) (f_sec f))).
+  /\ resolves offset (wall_of (f_year f) (f_month f) (f_day f) (f_hour f) (f_min f) (secs_of (e_tf e) (f_sec f)))
+  /\ (let w := wall_of (f_year f) (f_month f) (f_day f) (f_hour f) (f_min f) (secs_of (e_tf e) (f_sec f)) in
+      let c := offset (unix_of t) in offset w = c /\ offset (w - c) = c /\ c mod 60 = 0).
 Proof. vm_compute. repeat split; try discriminate; reflexivity. Qed.
 
 (* ------------------------------------------------------------------------------------------------ *)
@@ -764,10 +766,13 @@ Proof.
   unfold w. rewrite (wall_of_sec _ _ _ _ _ (f_sec f)), W. unfold wall. rewrite Hc. lia.
 Qed.
 
-(* a repeated hour: offset +2h before unix 10^9, +1h after; the earlier 03:36:40 re-reads as the later 03:36:40 *)
-Definition fold_zone (x : Z) : Z := if x <? 1000000000 then 7200 else 3600.
-Definition fold_env : env := Env YMD HMS [97; 109]%N [112; 109]%N 2026.
-Definition fold_instant : Z := 999999400 * giga.
+(* Europe/Dublin 1992-10-25: +1:00 until 01:00 UTC, then +0:00, so 01:00-01:59:59 local occurs twice.  The input of the
+   known finding: 01:59:01 +01:00 (the earlier one) is written "10-25-1992 1:59:01 am" and read back as 01:59:01 +00:00,
+   3600 s later (time.Date finds offset 0 at the wall value read as UTC and keeps it) *)
+Definition dublin_T : Z := days_from_civil 1992 10 25 * 86400 + 3600.
+Definition fold_zone (x : Z) : Z := if x <? dublin_T then 3600 else 0.
+Definition fold_env : env := Env MDY HMSAP [97; 109]%N [112; 109]%N 2026.
+Definition fold_instant : Z := (days_from_civil 1992 10 25 * 86400 + 3541) * giga.
 
 Lemma fold_witness :
   std_markers fold_env /\ in_year_range (f_year (fields_of fold_zone fold_instant))
@@ -780,6 +785,27 @@ Proof.
   split; [split; reflexivity|]. split; [vm_compute; split; discriminate|].
   split; [vm_compute; reflexivity|]. split; vm_compute; reflexivity.
 Qed.
+
+(* Pacific/Apia 1892-07-04: +12:33:04 until the date line moved, then -11:26:56: the whole day occurs twice.  The later
+   01:53:52 (-11:26:56) is written "04-07-1892 1:53 am" and read back as the earlier one, 24 h before; the same
+   through FieldValues.Parse (up to the seconds its stored form drops) *)
+Definition apia_T : Z := days_from_civil 1892 7 5 * 86400 - 45184.
+Definition apia (x : Z) : Z := if x <? apia_T then 45184 else -41216.
+Definition apia_env : env := Env DMY HMAP [97; 109]%N [112; 109]%N 2026.
+Definition apia_instant : Z := (days_from_civil 1892 7 4 * 86400 + 6832 + 41216) * giga.
+
+Lemma repeated_day_witness :
+  fields_of apia apia_instant = Fields 1892 7 4 1 53 52 0
+  /\ datetime_from_string apia (fun _ => None) apia_env (format_datetime apia apia_env apia_instant)
+     = Some (apia_instant - 52 * giga - 86400 * giga)
+  /\ fields_of apia (apia_instant - 52 * giga - 86400 * giga) = Fields 1892 7 4 1 53 0 0.
+Proof. repeat split; vm_compute; reflexivity. Qed.
+
+(* the field level of the Dublin input: what FieldValues.Parse stores is that other instant too *)
+Lemma fold_field_witness : forall fill,
+  exists n, field_parse fill fold_zone (fun _ => None) fold_env (format_datetime fold_zone fold_env fold_instant)
+            = Some (n, Some (fold_instant + 3600 * giga)).
+Proof. intros fill. eexists. vm_compute. reflexivity. Qed.
 
 (* ------------------------------------------------------------------------------------------------ *)
 (* Part 9: stored field values (FieldValues.Parse) *)
@@ -845,4 +871,39 @@ Lemma as_stored_whole_minutes : forall off r, off mod 60 = 0 -> r mod 1000 = 0 -
 Proof.
   intros off r H1 H2. unfold as_stored, sec_part.
   replace (60 * Z.quot off 60) with off by (Z.to_euclidean_division_equations; lia). lia.
+Qed.
+
+(* ---- the property-level statements for stored field values ------------------------------------- *)
+
+(* ISO text of a datetime in a zone with a whole-minute offset: the field stores the instant at microseconds *)
+Lemma field_parse_iso_instant : forall fill offset offset' zend e t,
+  in_year_range (f_year (fields_of offset t)) -> -86400 < offset (unix_of t) < 86400 -> offset (unix_of t) mod 60 = 0 ->
+  exists n, field_parse fill offset' zend e (iso offset t) = Some (n, Some (t - t mod 1000)).
+Proof.
+  intros fill offset offset' zend e t Hy Hoff Hm.
+  destruct (field_parse_iso fill offset offset' zend e t Hy Hoff) as (n & H). exists n. rewrite H. do 3 f_equal.
+  replace (60 * Z.quot (offset (unix_of t)) 60) with (offset (unix_of t)); [lia|].
+  Z.to_euclidean_division_equations; lia.
+Qed.
+
+(* environment format, under the hypotheses of the instant-level theorem and a whole-minute offset: the field stores
+   t with exactly the unrendered part removed *)
+Lemma field_parse_format_instant : forall fill offset zend e t c, std_markers e -> in_year_range (f_year (fields_of offset t)) ->
+  let f := fields_of offset t in
+  let w := wall_of (f_year f) (f_month f) (f_day f) (f_hour f) (f_min f) (secs_of (e_tf e) (f_sec f)) in
+  offset (unix_of t) = c -> offset w = c -> offset (w - c) = c -> c mod 60 = 0 ->
+  exists n, field_parse fill offset zend e (format_datetime offset e t)
+            = Some (n, Some ((unix_of t - (f_sec f - secs_of (e_tf e) (f_sec f))) * giga)).
+Proof.
+  intros fill offset zend e t c Hm Hy f w Hc H1 H2 H60.
+  destruct (field_parse_format fill offset zend e t Hm Hy) as (n & H). exists n. rewrite H. clear H.
+  fold f. fold w. rewrite (combine_resolves _ _ _ _ (resolves_stable offset w c H1 H2)), Z.add_0_r.
+  assert (Hp : from_wall offset w = w - c) by (unfold from_wall; rewrite H1, H2; reflexivity).
+  rewrite Hp.
+  assert (Hu : unix_of ((w - c) * giga) = w - c) by (unfold unix_of, giga; Z.to_euclidean_division_equations; lia).
+  rewrite Hu, H2. rewrite as_stored_whole_minutes;
+    [|exact H60|unfold giga; Z.to_euclidean_division_equations; lia].
+  do 3 f_equal.
+  destruct (fields_of_spec offset t) as (_ & W & _). fold f in W.
+  unfold w. rewrite (wall_of_sec _ _ _ _ _ (f_sec f)), W. unfold wall. rewrite Hc. lia.
 Qed.
